@@ -3,31 +3,35 @@
 (* Open carries what JsTokensGen derived for the input (expected kinds, byte ranges of the units, the token that *)
 (* precedes a RegExp() call) or free = TRUE for an input nobody derived; every Tok event is one report of the     *)
 (* lexer, End that the driver stopped.  Accepted: every report satisfies TokenInv, and - unless free - the        *)
-(* reports are exactly the expected tokens followed by the end of input.                                          *)
+(* reports are exactly the expected tokens followed by the end of input.  prefix = TRUE (differential replay of    *)
+(* JsLexImpl.tla: the expectation is the model's reports up to one that the property-level definition prescribes   *)
+(* and the lexer did not deliver): the first reports are exactly the expected tokens; what the lexer reports after  *)
+(* them is judged like a free trace.                                                                              *)
 EXTENDS JsTokens, TraceIO
 
-VARIABLES exp, idx, free, l, bad
-pvars == <<exp, idx, free>>
+VARIABLES exp, idx, free, pfx, l, bad
+pvars == <<exp, idx, free, pfx>>
 tvars == <<pvars, l, bad>>
 e == Trace[l]
 
-TInit == l = 1 /\ bad = FALSE /\ exp = <<>> /\ idx = 1 /\ free = TRUE
+TInit == l = 1 /\ bad = FALSE /\ exp = <<>> /\ idx = 1 /\ free = TRUE /\ pfx = FALSE
 IsStart == e.ev = "Open"
 Returned == e.out = "ret"
 
 Open == /\ exp' = [i \in DOMAIN e.ek |-> [k |-> e.ek[i], lo |-> e.elo[i], hi |-> e.ehi[i], pre |-> e.epre[i]]]
         /\ idx' = 1
         /\ free' = e.free
+        /\ pfx' = e.prefix
 Tok == /\ e.ev = "Tok"
        /\ TokenInv([kname |-> e.kname, cls |-> e.cls, text |-> e.text, canon |-> e.canon])
-       /\ (~free => Matches(exp, idx, [kname |-> e.kname, err |-> e.err, eof |-> e.eof, lo |-> e.lo, hi |-> e.hi,
+       /\ (~free /\ ~(pfx /\ idx > Len(exp)) => Matches(exp, idx, [kname |-> e.kname, err |-> e.err, eof |-> e.eof, lo |-> e.lo, hi |-> e.hi,
                                         same |-> e.same, pre |-> e.pre]))
        /\ idx' = idx + 1
-       /\ UNCHANGED <<exp, free>>
+       /\ UNCHANGED <<exp, free, pfx>>
 
-\* the driver stopped calling: unless free, that was after the expected tokens and the end report
+\* the driver stopped calling: unless free, that was after the expected tokens and the end report (prefix: after the expected tokens)
 End == /\ e.ev = "End"
-       /\ (~free => idx = Len(exp) + 2)
+       /\ (~free => IF pfx THEN idx > Len(exp) ELSE idx = Len(exp) + 2)
        /\ UNCHANGED pvars
 Step == Tok \/ End
 
